@@ -60,3 +60,47 @@ def extra(binary, build, tier, rng):
                    (lambda w, items=items, buf=buf: "multi items=%s buf=%s words=%d" % (items, buf, w)), which,
                    (lambda w1, w2, items=items, buf=buf: "multi items=%s buf=%s words=%d,%d" % (items, buf, w1, w2))))
     yield from first_draw_counts(binary, build, rng, ps, "preimage-interval-probes")
+    # the DROP region of the last replacement draw (n items, k <= n-2 slots): exact uniformity of the draw needs the words that keep the
+    # buffer unchanged to number exactly (n-k) times the words behind one slot; the words of that region that are redrawn are looked for
+    # at the boundaries of the n equal stretches of the word space (where a multiply-shift sampler rejects)
+    from .preimage_oracle import Prober, count_values
+    B = 1 << 64
+    probes = 0
+    for n, k in ((6, 4), (7, 3), (10, 4), (12, 5)):
+        items = ",".join(map(str, range(n)))
+        buf = ",".join(["77"] * k)
+        prefix = ",".join([str(B - 1)] * (n - 1 - k))          # the earlier replacement draws: the top word, which drops the item
+        def mk(w, items=items, buf=buf, prefix=prefix):
+            return "multi items=%s buf=%s words=%s%d" % (items, buf, prefix + "," if prefix else "", w)
+        def which(res, n=n, k=k):
+            f = parse_ok(res)
+            if f is None or len(f) < 2:
+                return None
+            got = f[1].split(",")
+            j = [i for i, x in enumerate(got) if x == str(n - 1)]
+            return j[0] if j else k
+        pr = Prober(binary, mk, which)
+        msg, info = count_values(pr, n, 64, list(range(k)), rng, "multiple(%d items, %d slots)" % (n, k))
+        if msg == "inconclusive":
+            yield {"kind": "note", "text": "multiple(%d, %d): drop-region count inconclusive (%s)" % (n, k, info)}
+            continue
+        if msg:
+            yield {"kind": "oracle", "build": build, "request": mk(info[min(info)][0]), "impl": str(info)[:500], "model": "", "oracle": msg}
+            continue
+        q = info[0][2]
+        d0 = info[k - 1][1] + 1
+        need = (B - d0) - (n - k) * q
+        cand = sorted({w for j in range(k, n + 1) for t in range(-3, 4) for w in ((j * B) // n + t, -((-j * B) // n) + t) if d0 <= w < B})
+        vals = pr.many(cand)
+        found = [w for w, v in zip(cand, vals) if v is None]
+        rnd = [d0 + rng.below(B - d0) for _ in range(200)]
+        if any(v is None for v in pr.many(rnd)):
+            yield {"kind": "note", "text": "multiple(%d, %d): words are redrawn elsewhere than at the stretch boundaries - drop-region count not judged" % (n, k)}
+        elif len(found) != need:
+            acc = [w for w, v in zip(cand, vals) if v is not None]
+            wit = next((w for w in acc if w not in (B - 1,) and any(abs(w - (j * B) // n) <= 1 for j in range(k, n))), acc[0] if acc else d0)
+            yield {"kind": "oracle", "build": build, "request": mk(wit), "impl": "slot counts %d each; the region that leaves the buffer unchanged starts at word %d; redrawn words found in it: %s" % (q, d0, found[:8]), "model": "",
+                   "oracle": "multiple(%d items, %d slots), last replacement draw: each slot is taken by %d words, so exact uniformity needs %d x %d = %d words that leave the buffer unchanged; the region holds %d words, "
+                             "so %d of them must be redrawn - %d are" % (n, k, q, n - k, q, (n - k) * q, B - d0, need, len(found))}
+        probes += pr.calls
+    yield {"kind": "count", "what": "drop-region-probes", "n": probes}
